@@ -1,6 +1,7 @@
 """C02 — mass-balance and flow checks report exactly the violations."""
 from fractions import Fraction
 import itertools
+import logging
 import math
 import re
 
@@ -208,20 +209,41 @@ def build_system(sysd):
     return fd.MFASystem(dims=dims, parameters={}, processes=procs, flows=flows, stocks=stocks)
 
 
-class LogCapture:
+class LogCapture(logging.Handler):
+    """what the library logs while a check runs, through the standard logging framework (root logger or a logger of its own)"""
+
     def __init__(self):
+        super().__init__(level=logging.DEBUG)
         self.warnings, self.infos = [], []
 
-    def warning(self, msg, *a, **k):
-        self.warnings.append(str(msg))
+    def emit(self, record):
+        try:
+            msg = record.getMessage()
+        except Exception:  # noqa
+            msg = str(record.msg)
+        (self.warnings if record.levelno >= logging.WARNING else self.infos).append(msg)
 
-    def info(self, msg, *a, **k):
-        self.infos.append(str(msg))
+    def __enter__(self):
+        self._root = logging.getLogger()
+        self._disabled = self._root.manager.disable
+        logging.disable(logging.NOTSET)
+        self._levels = {}
+        for lg in [self._root] + [l for n, l in logging.Logger.manager.loggerDict.items() if n.startswith("flodym") and isinstance(l, logging.Logger)]:
+            self._levels[lg] = (lg.level, lg.disabled, lg.propagate)
+            lg.setLevel(logging.DEBUG)
+            lg.disabled = False
+            lg.propagate = True
+        self._root.addHandler(self)
+        return self
 
-    def debug(self, *a, **k):
-        pass
-
-    error = warning
+    def __exit__(self, *a):
+        self._root.removeHandler(self)
+        logging.disable(self._disabled)
+        for lg, (lv, dis, prop) in self._levels.items():
+            lg.setLevel(lv)
+            lg.disabled = dis
+            lg.propagate = prop
+        return False
 
 
 def _names_from(msg, procs):
@@ -241,18 +263,16 @@ def _flagged(messages, names):
 
 
 def run_impl(case):
-    import flodym.mfa_system as ms
     sysd = case["sys"]
     mfa = build_system(sysd)
     tol = None if case["tol"] is None else float(Fraction(case["tol"]))
     out = {}
-    old = ms.logging
-    try:
+    if True:
         for mode in (True, False):
             cap = LogCapture()
-            ms.logging = cap
             try:
-                mfa.check_mass_balance(tolerance=tol, raise_error=mode)
+                with cap:
+                    mfa.check_mass_balance(tolerance=tol, raise_error=mode)
                 if cap.warnings:
                     out[f"mb_{mode}"] = dict(kind="failed", procs=_names_from(cap.warnings[0], sysd["procs"]), via="warning")
                 else:
@@ -263,9 +283,9 @@ def run_impl(case):
                 out[f"mb_{mode}"] = dict(kind="failed", procs=_names_from(str(e), sysd["procs"]), via="raise")
         for mode in (True, False):
             cap = LogCapture()
-            ms.logging = cap
             try:
-                mfa.check_flows(exceptions=list(case["exceptions"]), raise_error=mode, verbose=False)
+                with cap:
+                    mfa.check_flows(exceptions=list(case["exceptions"]), raise_error=mode, verbose=False)
                 # the flows a warning names, by the kind of complaint (the wording is the library's own; the flow name is what counts)
                 fnames = [f["name"] for f in sysd["flows"]]
                 nanf = _flagged([m for m in cap.warnings if "nan" in m.lower()], fnames)
@@ -281,8 +301,6 @@ def run_impl(case):
                                for p, b in bal.items()}
         except Exception as e:  # noqa
             out["balances"] = None
-    finally:
-        ms.logging = old
     return dict(kind="ok", value=out)
 
 
